@@ -9,6 +9,7 @@ Lines (tab separated):
             off = comma list of the assets whose feed is off; mode ∈ {inactive (IsPriceActive=false), missing (no record)}
             owner/names/admin/brk/base/parentEmpty/branchClean/victimSame ∈ {0,1}; esm ∈ {none,in,after};
             outcome ∈ {ok,err,panic}
+  grd.unit  unit scn needs off mode base changed panicked                  a begin-block unit that reads prices; changed = its records differ
   grd.wasm  variant chain senderKind sender base outcome diffEmpty        outcome ∈ {ok,err:guard,err:inner,panic}
   grd.sweep sweep app brk esm base started appDiffEmpty                    started = number of new liquidations / auctions
 
@@ -88,6 +89,16 @@ def handleSweep (seq sweep app : String) (brk : Bool) (esm : String) (base : Boo
     let m1 := if brk && (started != 0 || !appDiffEmpty) then ["sweep_skips"] else []
     d1 ++ d2 ++ d3 ++ (m1.map fun m => s!"MON\t{seq}\t{m}")
 
+/-- a begin-block unit that reads prices (liquidation sweep of one position, auction price update / restart): with a needed
+feed off its records must stay untouched; with every needed feed on it must do its work -/
+def handleUnit (seq unit scn needsS offS : String) (base changed panicked : Bool) : List String :=
+  let needs := csv needsS
+  let hit := needs.filter (csv offS).contains
+  let d1 := if base && !changed then [s!"DIFF\t{seq}\t{unit} {scn}: every needed feed is on, the unit must change its records"] else []
+  let d2 := if base && !hit.isEmpty then [s!"BAD\t{seq}\t{unit} {scn}: baseline with a needed feed off"] else []
+  let m1 := if !hit.isEmpty && (changed || panicked) then [s!"MON\t{seq}\tprice_fail_closed"] else []
+  d1 ++ d2 ++ m1
+
 def handle (st : St) (seq : String) (f : List String) : St × List String :=
   let st' := { st with n := st.n + 1 }
   match f with
@@ -101,6 +112,10 @@ def handle (st : St) (seq : String) (f : List String) : St × List String :=
     match b? base, b? de with
     | some base, some de => (st', handleWasm seq variant chain kind sender base outcome de)
     | _, _ => (st', [s!"BAD\t{seq}\tgrd.wasm flags"])
+  | ["grd.unit", unit, scn, needs, off, _mode, base, changed, panicked] =>
+    match b? base, b? changed, b? panicked with
+    | some base, some changed, some panicked => (st', handleUnit seq unit scn needs off base changed panicked)
+    | _, _, _ => (st', [s!"BAD\t{seq}\tgrd.unit flags"])
   | ["grd.sweep", sweep, app, brk, esm, base, started, ade] =>
     match b? brk, b? base, parseNat? started, b? ade with
     | some brk, some base, some started, some ade => (st', handleSweep seq sweep app brk esm base started ade)
